@@ -1037,6 +1037,9 @@ class ExcelCompiler:
                 first_exc = first_exc or exc
 
         if first_exc is not None:
+            # the ranges get their values when they are next needed, and not
+            # in the build of an unrelated cell
+            self.range_todos = []
             raise first_exc
 
         # calc the values for ranges
